@@ -594,3 +594,33 @@ func ShapeBanks(run *vk.Run) (map[string][]ovmf.GuestPhysicalRegion, error) {
 	}
 	return out, nil
 }
+
+// ExampleLayoutMRTD returns the MRTD of the definition (the MEM.PAGE.ADD / MR.EXTEND stream and the
+// hand-off block computed from the ABI tables, the reference RunC05 compares tdx.MRTD with) for an image
+// that has the default example layout (fakeovmf.CleanExample: section types BFV, CFV, TempMem, TempMem,
+// TD_HOB, TempMem), in a launch mode ("default", "measure_all", "measure_all_ea") over RAM banks. Checks
+// of signed documents use it so that their expectation does not come from tdx.MRTD itself.
+func ExampleLayoutMRTD(img []byte, mode string, banks []ovmf.GuestPhysicalRegion) ([]byte, error) {
+	e, _, err := abiref.Load()
+	if err != nil {
+		return nil, err
+	}
+	regs, err := ovmf.ExtractMaterialGuestPhysicalRegions(img)
+	if err != nil {
+		return nil, err
+	}
+	types := []uint32{0, 1, 3, 3, 2, 3}
+	if len(regs) != len(types) {
+		return nil, fmt.Errorf("image does not have the example layout (%d regions)", len(regs))
+	}
+	var secs []*oabi.TDXMetadataSection
+	for i, r := range regs {
+		s := &oabi.TDXMetadataSection{MemoryBase: r.GPR.Start, MemorySize: r.GPR.Length, Attributes: r.TDVFAttributes, SectionType: types[i]}
+		if i == 0 {
+			s.DataOffset = 0x20000
+		}
+		secs = append(secs, s)
+	}
+	m, _, err := expectedMrtd(e, img, secs, mode, banks)
+	return m, err
+}
